@@ -978,4 +978,23 @@ example : Desc.wf ⟨26, 9, 1, .integer, false, 0, none⟩ := by decide
 example : Desc.indep ⟨26, 9, 1, .integer, false, 0, none⟩ ⟨26, 9, 2, .string, false, 0, none⟩ := by decide
 example : Desc.indep ⟨1, 0, 0, .string, false, 0, none⟩ ⟨26, 9, 2, .string, false, 0, none⟩ := by decide
 
+/-! ### The type octet (second audit, finding 1)
+
+`survives_wire` assumes `d.wf`, hence `0 ≤ d.typ ≤ 255`.  The hypothesis is needed: the wire form has one octet
+for the Type, `encodeTo` skips every other type, so a helper for "attribute 300" stores a value that never leaves
+the process.  The generator used to emit such helpers for top-level attributes (fix 07e31b9 in /repo; C17
+`top_level_number_must_fit_the_type_octet`). -/
+
+def dBeyond : Desc := { typ := 300, vendorID := 0, vendorType := 0, kind := .string, hasTag := false, encrypt := 0, size := none }
+def pBeyond : Packet := { code := 1, id := 7, auth := List.replicate 16 0, secret := [115], attrs := [⟨300, [97, 98]⟩] }
+def wBeyond : Bytes := [1, 7, 0, 20, 0, 0, 0, 0, 0, 0, 0, 0, 0, 0, 0, 0, 0, 0, 0, 0]
+
+/-- without the range the clause fails: the packet marshals (to a bare header), parses, and the value is gone -/
+theorem survives_wire_needs_the_type_octet :
+    ¬ dBeyond.wf ∧ marshal pBeyond = .ok wBeyond ∧
+    ∃ q, parse wBeyond [115] = .ok q ∧ q.attrs = [] ∧ rawValues dBeyond q.attrs ≠ rawValues dBeyond pBeyond.attrs := by
+  refine ⟨by decide, by decide +kernel, ?_⟩
+  have h := C01.parse_marshal pBeyond wBeyond [115] (by decide +kernel) (by decide) (by decide)
+  exact ⟨_, h, by decide, by decide⟩
+
 end RV.C12
